@@ -6,6 +6,7 @@ from pyvc import smt
 from pyvc.smt import Val, I, B, kind, KIND_NODE, KIND_LIST, KIND_DICT
 from pyvc.task import Contract
 from .prelude import *
+from .prelude import _CS
 from .tree import *
 from . import node_ops
 from .node_ops import store_map, idkey, reg_sub, deleted_key, shape_inv, IDX, idx_def, others_lists_unchanged
@@ -75,4 +76,137 @@ def install(w, case):
                    mod=lambda s0, r, **kw: r == STORE, allocates=True, result_ty="list:val", modular=False,
                    assumptions=("T-unfold(Sub,W,Tree,first_index)", "T-frame(subtree)"))
     w.call_lemmas[(Q, node_ops.Q_DELETE)] = lambda s0, s, v: subtree_frame_steps(s0, s, v.n)
+    return con
+
+
+# ------------------------------------------------------------------------------------------------ pruning a clean tree is a no-op
+_VALIDN = z3.Function("node_valid", *_CS, I, B)                      # ghost (shared with C04/C05): validate.node(n) succeeds
+_CLEAN = z3.Function("prune_clean", *_CS, smt.FieldArr, I, B, B)    # ghost: nothing below n (outside metadata content) would be pruned
+_RN = z3.Function("rule_child_names_of", z3.StringSort(), I)        # ghost: the list of child names the rule of an element name permits
+
+
+def VALIDN(s, n):
+    return _VALIDN(*s.cs, n)
+
+
+def CLEAN(s, n, strict):
+    return _CLEAN(*s.cs, s.arr("F:_name"), n, strict)
+
+
+def install_clean(w):
+    """prune on a tree that is already clean (every node outside metadata content has a known name and only children its rule permits; in
+    strict mode every non-root node passes single-node validation): returns an empty list, writes nothing, raises nothing.  Together with
+    what the first pruning establishes (bounded pass) this is 'pruning a second time removes nothing'.  validate.node and the rule table
+    enter abstractly: node_valid (what C04 proves of validate.node: only the rule-error family, UnknownNodeError exactly for unknown names)
+    and rule_child_names_of (C17 proves is_allowed_child is membership in that list)."""
+    import metapype.eml.rule as rule_mod
+    from metapype.eml import validate
+    from metapype.eml.exceptions import MetapypeRuleError, UnknownNodeError
+    from pyvc.values import Sym
+    from .node_ops import kids_typed
+    known = list(rule_mod.node_mappings)
+    node_ops.install_remove_child(w)
+    node_ops.install_delete(w)
+    MD = z3.StringVal("metadata")
+
+    def is_known(s, n):
+        return smt.disj([s.name(n) == z3.StringVal(x) for x in known])
+
+    def allowed(s, pname, cname_val):
+        """cname_val: the child's name as the Val stored in its _name field (no constructor/accessor round trip: the executor compares that Val)"""
+        j = z3.Int("al_j")
+        L = _RN(pname)
+        return z3.Exists([j], z3.And(0 <= j, j < s.len(L), s.at(L, j) == cname_val))
+
+    def clean_def(s, n, strict):
+        i = z3.Int("cd_i")
+        ch = s.kid(n, i)
+        return CLEAN(s, n, strict) == z3.Or(s.name(n) == MD, z3.And(is_known(s, n), smt.FA([i], z3.Implies(
+            z3.And(0 <= i, i < s.nkids(n)), z3.And(allowed(s, s.name(n), s.f("_name", ch)), CLEAN(s, ch, strict), z3.Implies(strict, VALIDN(s, ch)))),
+            patterns=[s.at(s.kids(n), i)])))
+
+    # ---- abstract callees
+    node_con = Contract("metapype.eml.validate:node", params={"n": "Node"}, ensures=lambda s0, s, n, errs=None, result=None: {"no-new-nodes": no_new_nodes(s0, s)},
+                        raises=[(UnknownNodeError, lambda s, n, errs=None: z3.Not(is_known(s, n)), None),
+                                (MetapypeRuleError, lambda s, n, errs=None: z3.And(is_known(s, n), z3.Not(VALIDN(s, n))), None)],
+                        writes=(), mod=lambda s0, r, **kw: z3.BoolVal(False), allocates=True, result_ty="none", modular=True, trusted=True,
+                        assumptions=("validate.node by contract (C04): raises UnknownNodeError exactly for unknown element names, otherwise a rule error "
+                                     "exactly when the node is not valid, and writes nothing in fail-fast mode",))
+    w.add(node_con)
+
+    def ext_get_rule(ip, node_name):
+        c = ip.c
+        r = ip.call(rule_mod.Rule, ["anyNameRule"], {})
+        nm = z3.StringVal(node_name) if isinstance(node_name, str) else node_name.t
+        t = _RN(nm)
+        c.assume(c.ty_fact(Val.ref(t), "list:str"))
+        j = z3.Int("rn_j")
+        e = c.heap.get("lelem")[t]
+        c.assume(smt.FA([j], Val.is_strv(e[j]), patterns=[e[j]]))
+        c.assume(t < c.heap0.top)
+        r.fields["_rule_children_names"] = Sym(t, "list:str")
+        c.assumptions_used.add("rule.get_rule by name: the rule object's child-name list is the ghost rule_child_names_of(element name), a list that exists "
+                               "before the call (the rule tables are module data)")
+        return r
+    w.externals[rule_mod.get_rule] = ext_get_rule
+
+    def requires(s, n, strict):
+        sb = strict if z3.is_expr(strict) else z3.BoolVal(bool(strict))
+        m = z3.Int("rq_m")
+        return {"clean": CLEAN(s, n, sb), "wf": wf_sub(s, n), "kids-typed": kids_typed(s), "tree": TREE(s, n),
+                "rule-lists-are-no-child-lists": smt.FA([m], z3.Implies(s.is_node(m), z3.And(*[s.kids(m) != _RN(z3.StringVal(x)) for x in known])), patterns=[s.f("_children", m)])}
+
+    def axioms(s, n, strict):
+        sb = strict if z3.is_expr(strict) else z3.BoolVal(bool(strict))
+        d = tree_axioms(s, n)
+        d["clean-def"] = clean_def(s, n, sb)
+        return d
+
+    def ensures(s0, s, n, strict, result):
+        L = Val.r(result)
+        return {"top:nothing-reported": z3.And(Val.is_ref(result), L >= s0.top, kind(L) == KIND_LIST, s.len(L) == 0), "no-new-nodes": no_new_nodes(s0, s)}
+
+    def pruned_list(v):
+        x = v.raw("pruned")
+        return x.ref if isinstance(x, PList) else x.t
+
+    def inv(s0, s, v):
+        P = pruned_list(v)
+        j = z3.Int("cp_j")
+        x = v.raw("children")
+        C = x.ref if isinstance(x, PList) else x.t
+        return {"bound": v._k >= 0, "still-empty": z3.And(P >= s0.top, P < s.top, kind(P) == KIND_LIST, s.len(P) == 0),
+                # the loop runs over a snapshot of the children, which is (still) the children
+                "snapshot": z3.And(C != P, s.len(C) == s0.nkids(v.n), smt.FA([j], z3.Implies(z3.And(0 <= j, j < s.len(C)), s.at(C, j) == s0.at(s0.kids(v.n), j)),
+                                                                             patterns=[s.at(C, j)])),
+                "no-new-nodes": no_new_nodes(s0, s), "top": s.top >= s0.top}
+
+    def loop_axioms(s0, s, v):
+        ch = s0.kid(v.n, v._k)
+        sb = v.strict if z3.is_expr(v.strict) else z3.BoolVal(bool(v.strict))
+        d = {"kid-refl": SUB(s0, ch, ch), "clean-kid": clean_def(s0, ch, sb)}
+        d.update(clean_frame_steps(s0, s))
+        # what the unfolding of prune_clean at n says about this child, as explicit (proved) steps
+        inside = z3.And(v._k < s0.nkids(v.n), s0.name(v.n) != MD)
+        d["prove:this-child-is-permitted"] = z3.Implies(inside, allowed(s0, s0.name(v.n), s0.f("_name", ch)))
+        d["prove:this-child-is-clean"] = z3.Implies(inside, z3.And(CLEAN(s0, ch, sb), z3.Implies(sb, VALIDN(s0, ch))))
+        return d
+
+    def clean_frame_steps(s0, s):
+        m = z3.Int("cf_m")
+        b = z3.Bool("cf_b")
+        d = dict(tree_frame_steps(s0, s))
+        d["clean-frame"] = z3.And(smt.FA([m, b], z3.Implies(s0.is_node(m), CLEAN(s, m, b) == CLEAN(s0, m, b)), patterns=[CLEAN(s, m, b)]),
+                                  smt.FA([m], z3.Implies(s0.is_node(m), VALIDN(s, m) == VALIDN(s0, m)), patterns=[VALIDN(s, m)]))
+        return d
+
+    con = Contract(Q, params={"n": "Node", "strict": "bool"}, requires=requires, axioms=axioms, ensures=ensures, writes=(), mod=lambda s0, r, **kw: z3.BoolVal(False),
+                   allocates=True, result_ty="list:val", decreases=lambda s, n, strict: H(s, n), modular=True,
+                   assumptions=("T-unfold(prune_clean, Sub, W, Tree)", "T-frame(prune_clean, node_valid)"))
+    w.add(con)
+    vt = {"child": "Node", "children": "list:Node"}
+    w.loop(Q, 1, inv=inv, axioms=loop_axioms, var_types=vt)
+    w.loop(Q, 2, inv=inv, axioms=loop_axioms, var_types=vt)
+    w.call_lemmas[(Q, Q)] = lambda s0, s, v: clean_frame_steps(s0, s)
+    w.call_lemmas[(Q, "metapype.eml.validate:node")] = lambda s0, s, v: clean_frame_steps(s0, s)
     return con
